@@ -8,7 +8,8 @@ use std::time::Duration;
 
 fn main() {
     let scen = std::env::args().nth(1).unwrap_or_else(|| "probes".into());
-    let mut bad = None;
+    let mut bad: Option<String> = None;
+    std::panic::set_hook(Box::new(|_| {}));
     match scen.as_str() {
         "probes" => {
             for max in 1u32..=3 {
@@ -35,6 +36,57 @@ fn main() {
             cb.record_failure();
             if cb.current_state() == CircuitState::Open {
                 bad = Some("opened after 2 failures, a success and 1 failure with threshold 3".into());
+            }
+        }
+        // bounded native search with the harness's own oracles over the REAL code: every op sequence of
+        // length <= 6, small configurations, recovery timeout 0 (immediately recoverable) or 1 h (never)
+        "search" => {
+            'outer: for threshold in 1u32..=3 {
+                for max_calls in 1u32..=2 {
+                    for succ in 1u32..=2 {
+                        for timeout in [Duration::ZERO, Duration::from_secs(3600)] {
+                            for len in 1..=6u32 {
+                                for code in 0..4u32.pow(len) {
+                                    let cb = WriteCircuitBreaker::new(threshold, timeout, max_calls, succ);
+                                    let (mut consec, mut probes) = (0u32, 0u32);
+                                    let mut c = code;
+                                    let mut trace = Vec::new();
+                                    for _ in 0..len {
+                                        let op = c % 4;
+                                        c /= 4;
+                                        let before = cb.current_state();
+                                        trace.push(["allow", "success", "failure", "estimate"][op as usize]);
+                                        let r = std::panic::catch_unwind(std::panic::AssertUnwindSafe(|| match op {
+                                            0 => cb.should_allow_request(),
+                                            1 => { cb.record_success(); false }
+                                            2 => { cb.record_failure(); false }
+                                            _ => { let _ = cb.estimated_recovery_time(); false }
+                                        }));
+                                        let Ok(admitted) = r else {
+                                            bad = Some(format!("panic in {trace:?} (threshold {threshold}, max_calls {max_calls}, success_threshold {succ}, timeout {timeout:?})"));
+                                            break 'outer;
+                                        };
+                                        let after = cb.current_state();
+                                        if op == 1 { consec = 0; }
+                                        if op == 2 { consec += 1; }
+                                        if before != CircuitState::HalfOpen && after == CircuitState::HalfOpen { probes = 0; }
+                                        if op == 0 && admitted && after == CircuitState::HalfOpen {
+                                            probes += 1;
+                                            if probes > max_calls {
+                                                bad = Some(format!("{probes} probes admitted in one half-open episode with half_open_max_calls={max_calls}: {trace:?} (threshold {threshold}, success_threshold {succ}, timeout {timeout:?})"));
+                                                break 'outer;
+                                            }
+                                        }
+                                        if before == CircuitState::Closed && after == CircuitState::Open && (op != 2 || consec < threshold) {
+                                            bad = Some(format!("circuit opened after {consec} consecutive failure(s) with failure_threshold={threshold}: {trace:?} (max_calls {max_calls}, success_threshold {succ}, timeout {timeout:?})"));
+                                            break 'outer;
+                                        }
+                                    }
+                                }
+                            }
+                        }
+                    }
+                }
             }
         }
         _ => std::process::exit(2),
